@@ -43,8 +43,8 @@ FAULTS = {
     'raw.write': [('errno', E.ENOSPC), ('errno', E.EIO), ('errno', E.EDQUOT), ('short', 1), ('short', 3), ('disk-full', 0)],
     'fsync': [('errno', E.EIO), ('errno', E.ENOSPC)],
     'raw.close': [('errno', E.EIO)],
-    'rename': [('errno', E.EACCES), ('errno', E.EPERM), ('errno', E.ENOSPC), ('errno', E.EIO)],
-    'link': [('errno', E.EPERM), ('errno', E.EMLINK)],
+    'rename': [('errno', E.EACCES), ('errno', E.EPERM), ('errno', E.ENOSPC), ('errno', E.EIO), ('errno', E.EXDEV)],
+    'link': [('errno', E.EPERM), ('errno', E.EMLINK), ('errno', E.EXDEV)],
 }
 CLEANUP_FAULTS = [('errno', E.EACCES), ('errno', E.EIO)]
 
@@ -143,6 +143,7 @@ class Pre:
         if case.get('reuse'):
             self.dest_present = self.dest_present or self.dest_data is not None
             self.part_present = self.part_present or self.part_data is not None
+        self.name_too_long = S.name_too_long(case)
         self.refused_dest = self.dest_present and not self.overwrite
         self.refused_part = self.part_present and not self.overwrite_part
 
@@ -169,7 +170,8 @@ def judge(case, pre, r, faults, out, step, second_party=None, retry=True):
     failing_body = pre.body_raises or (pre.body_closes and r.exc is not None)
     expected_failure = (failing_body or pre.refused_dest or pre.refused_part
                         or (second_party == 'dest' and not pre.overwrite) or second_party == 'part'
-                        or ('link' in pre.env and not pre.overwrite))
+                        or ('link' in pre.env and not pre.overwrite)
+                        or (pre.name_too_long and r.exc is not None))
 
     # B5 for a part "file" that is a symbolic link: without overwrite_part neither the link nor the file it
     # points to may be touched (with overwrite_part the property allows re-use, so nothing is demanded)
@@ -259,8 +261,8 @@ def judge(case, pre, r, faults, out, step, second_party=None, retry=True):
         c2 = dict(case)
         c2['body'] = [s for s in case['body'] if s[0] not in ('raise', 'close')]
         r2 = S.run_save(c2, simfs.Plan(), None, fs=fs)
-        refused = r2.exc is not None and not pre.overwrite and (
-            fs.lexists(pre.dest) or 'link' in pre.env)
+        refused = r2.exc is not None and (pre.name_too_long or (not pre.overwrite and (
+            fs.lexists(pre.dest) or 'link' in pre.env)))
         if r2.exc is not None and not refused:
             return out.fail('retry-fails', step, 'after the failed save (%s) an immediate retry raised %r'
                             % (_why(pre, faults, second_party), r2.exc), **sig)
@@ -275,6 +277,8 @@ def _o(m):
 
 def _why(pre, faults, second_party):
     parts = []
+    if pre.name_too_long:
+        parts.append('a file name longer than NAME_MAX')
     if pre.body_raises:
         parts.append('the body raised')
     elif pre.body_closes:
